@@ -342,8 +342,48 @@ pub fn run(tier: Tier) -> i32 {
         });
         rep.count("projects_with_groups_named_like_plural_forms", (n * 2) as u64);
     }
+    // ---- plural forms that live only inside subkey groups (one and two levels deep), in files whose top-level keys
+    // are no forms at all - in both locales, in one of them only (the other writes the merged key's forms at top
+    // level too / nothing plural at top level), with a form more or a form less in fr: merged the same way everywhere
+    {
+        let forms = |l: &str, k: &str, which: &[&str]| -> Vec<(String, Val)> { which.iter().map(|f| (format!("{k}_{f}"), s(vec![text(&format!("[{l}.{k}.{f}]")), var("count")]))).collect() };
+        let variants: Vec<(&[&str], &[&str], bool, bool)> = vec![
+            (&["one", "other"], &["one", "other"], false, false),
+            (&["one", "other"], &["one", "many", "other"], false, false),
+            (&["one", "other"], &["other"], false, false),
+            (&["one", "other"], &["one", "other"], true, false),
+            (&["one", "other"], &["one", "other"], false, true),
+            (&["one", "few", "other"], &["one", "other"], true, true),
+        ];
+        let nv = variants.len();
+        vmodel::par::par_for(nv * 2, |w, i| {
+            let (en_forms, fr_forms, en_top, fr_top) = variants[i % nv];
+            let deep = i / nv == 1;
+            let mut p = Project::new(Config::simple("en", &["en", "fr"]));
+            for (l, fs, top) in [("en", en_forms, en_top), ("fr", fr_forms, fr_top)] {
+                let mut inner = forms(l, "items", fs);
+                inner.push(("label".to_string(), st(&format!("[{l}.cart.label]"))));
+                let cart = if deep { Val::Sub(vec![("box".to_string(), Val::Sub(inner)), ("label".to_string(), st(&format!("[{l}.cart.label2]")))]) } else { Val::Sub(inner) };
+                let mut e = vec![("title".to_string(), st(&format!("[{l}.title]"))), ("cart".to_string(), cart)];
+                // (a top-level plural in both or in none: the key set of the default decides what the other must hold)
+                if en_top && fr_top || top && en_top {
+                    e.extend(forms(l, "top", &["one", "other"]));
+                } else if top {
+                    // fr only: a surplus plural at top level
+                    e.extend(forms(l, "extra", &["one", "other"]));
+                }
+                p.set_file(None, l, e);
+            }
+            let (e, _) = check_project(&rep, "C07", "forms-only-inside-groups", &p, &scratch.worker(w), &keys_total);
+            if !matches!(e, Expect::Accept | Expect::Open(_)) {
+                vmodel::report::machinery_fail(&format!("generator produced a project the model does not accept: {e:?}"));
+            }
+            rep.eval(1);
+        });
+        rep.count("projects_with_plural_forms_only_inside_groups", (nv * 2) as u64);
+    }
     let mut cov = serde_json::Map::new();
-    cov.insert("rule".into(), json!("default locale en holds {a, b, g.x, g.y, g.h.z, p_one/p_other}; per non-default locale every combination of: a in {value,null,absent}; g in {absent, null, value (swap), group with x,y in {value,null,absent} and h in {absent,null,value (swap), group with z in 3 states}}; p in {forms, null, absent, only p_one, plain value, only p_other}; surplus in {none, value, group, plural pair, inside g, default's value b as a group, a key ending in _other, a plural with a form its locale never selects}; the default locale also holds a plain key `kind_other`; x inherits {none, explicit to default} x declared order of the locales (every permutation, rotating with the job index: the default first / in the middle / last) x {no namespaces, two namespaces with different patterns}; thorough adds a third locale (reduced pattern set) with every inherits map; plus 64 projects whose default holds subkey groups and ranges named like plural forms (tab_one / tab_two / tab_other as maps, rng_one / rng_other as ranges) with every presence pattern of them in fr, a key missing inside one and a surplus pair panel_one / panel_other, flat and namespaced: they stay the keys they are written as; oracle: exact multiset of MissingKey/SurplusKey/UnusedForm diagnostics, accessible key set == default's keys in every locale, SubKeyMissmatch for swaps, and every key rendered in every locale"));
+    cov.insert("rule".into(), json!("default locale en holds {a, b, g.x, g.y, g.h.z, p_one/p_other}; per non-default locale every combination of: a in {value,null,absent}; g in {absent, null, value (swap), group with x,y in {value,null,absent} and h in {absent,null,value (swap), group with z in 3 states}}; p in {forms, null, absent, only p_one, plain value, only p_other}; surplus in {none, value, group, plural pair, inside g, default's value b as a group, a key ending in _other, a plural with a form its locale never selects}; the default locale also holds a plain key `kind_other`; x inherits {none, explicit to default} x declared order of the locales (every permutation, rotating with the job index: the default first / in the middle / last) x {no namespaces, two namespaces with different patterns}; thorough adds a third locale (reduced pattern set) with every inherits map; plus 64 projects whose default holds subkey groups and ranges named like plural forms (tab_one / tab_two / tab_other as maps, rng_one / rng_other as ranges) with every presence pattern of them in fr, a key missing inside one and a surplus pair panel_one / panel_other, flat and namespaced: they stay the keys they are written as; plus 12 projects whose plural forms live only inside subkey groups (one and two levels deep) of files without top-level forms, in both locales or with a top-level plural in one file only; oracle: exact multiset of MissingKey/SurplusKey/UnusedForm diagnostics, accessible key set == default's keys in every locale, SubKeyMissmatch for swaps, and every key rendered in every locale"));
     cov.insert("exhaustive".into(), json!(true));
     cov.insert("outcome_classes".into(), json!(*classes.lock().unwrap()));
     cov.insert("suppress_key_warnings_build".into(), json!(cfg!(feature = "suppress")));
